@@ -589,6 +589,8 @@ func C01(c *Ctx) {
 	}
 	r.Count("R01.1 sync.Map.Range sites", nsm)
 
+	r.Rule("R01.5", "the audit switch changes nothing but audit: in the built-in contracts the region executed only when EnableAudit() is true posts events of AUDIT_* types only - an INTERCHAIN / SERVICE / NODEMGR event posted there makes delivery sets, the service cache or membership depend on a node-local configuration flag.")
+	c.auditIndependence(c.Contracts(), "R01.5", true)
 	c.c01Clock()
 	c.c01Goroutines()
 	c.c01Cache()
